@@ -474,3 +474,35 @@ func VerifC08ServiceUpdateEvent(v *vrt.T) {
 	v.Assert(ok2 && got2.Level == st.Level && got2.Message == st.Message && got2.Time.Equal(st.Time), "updated state survives a restart")
 	v.Reach("end")
 }
+
+// VerifC08DeleteTopic: a deleted topic leaves no level behind. A topic with a firing ID is
+// deleted while open, or after it was closed (a task is stopped - its anonymous topic
+// closed - before the delete hook runs): after a restart, and for a task re-defined under
+// the same name, the topic has no state.
+func VerifC08DeleteTopic(v *vrt.T) {
+	db := verifC08NewDB(&verifC08Node{})
+	s := verifC08Start(v, db)
+	lvl := alert.Level(v.IntRange("level", 1, 3))
+	v.Assert(s.Collect(alert.Event{Topic: "t", State: alert.EventState{ID: "a", Level: lvl, Message: "m", Time: time.Unix(0, 5).UTC()}}) == nil, "collect")
+	closedFirst := v.Choose("topic closed before the delete", 2) == 1
+	if closedFirst {
+		v.Assert(s.CloseTopic("t") == nil, "close")
+	}
+	v.Assert(s.DeleteTopic("t") == nil, "delete")
+	// same process: a new event of the re-defined task starts from OK
+	rec := &verifC08Rec{}
+	s.RegisterAnonHandler("t", rec)
+	v.Assert(s.Collect(alert.Event{Topic: "t", State: alert.EventState{ID: "a", Level: alert.Warning, Message: "n", Time: time.Unix(0, 9).UTC()}}) == nil, "collect after delete")
+	v.Goroutines()
+	v.Assert(len(rec.got) == 1 && rec.got[0].PreviousState().Level == alert.OK, "after the delete the ID starts from OK again")
+	// restart from the store as it was right after the delete
+	snap := db.snaps[len(db.snaps)-2]
+	if len(db.snaps) < 2 {
+		snap = db.root
+	}
+	s2 := verifC08Start(v, verifC08NewDB(snap.clone()))
+	_, ok2, _ := s2.EventState("t", "a")
+	v.Observe("restored", ok2)
+	v.Assert(!ok2, "after a restart the deleted topic has no state")
+	v.Reach("end")
+}
